@@ -177,6 +177,7 @@ def cases(tier, rng):
     from .c20_prt import cancelling_cases
     yield from cancelling_cases(rng, 30 if thorough else 8)
     yield from totals_cases(rng)
+    yield from table_size_cases(rng, thorough)
     # malformed: every integer field x boundary values on small files (sampled on the larger ones)
     small = [R.gen_art(rng, 1, 1, 1, layer_counts=(1, 2)), R.gen_art(rng, 0, 0, 2, layer_counts=(0, 1)), R.gen_art(rng, 2, 2, 0)]
     for i, a in enumerate(small):
@@ -184,9 +185,26 @@ def cases(tier, rng):
     for a, tag in (arts if thorough else arts[:6]):
         yield from field_cases(a, tag, rng, 60 if thorough else 10)
 
+def table_size_cases(rng, thorough):
+    """table lengths around powers of two (block / chunk sizes a reader or writer might process tables in): the image table, the
+    animation table and the frame table of one animation at 2^k - 1, 2^k, 2^k + 1 entries"""
+    def read_rt(a, tag):
+        b = R.encode(a); hx = b.hex()
+        yield Case(f"prt.read {hx}", expect=f"ok {len(b)} {R.show_text(R.dump_text(a))}", tag=tag + ":read")
+        yield Case(f"prt.rt {hx}", expect=f"ok 1 1 1 1 {R.show_bytes(b)}", tag=tag + ":rt")
+    ns = [255, 256, 257, 1023, 1024, 1025, 2048] + ([511, 512, 513, 3072, 4096, 4097] if thorough else [])
+    for n in ns:
+        yield from read_rt(R.gen_art(rng, 1, n, 1, layer_counts=(0, 1)), f"image-table-{n}")
+    for n in ([255, 256, 257, 1024] + ([512, 1023, 1025, 2048] if thorough else [])):
+        yield from read_rt(R.gen_art(rng, 1, 2, n, layer_counts=(0, 1)), f"animation-table-{n}")
+    for n in ([255, 256, 257] + ([1024, 1025] if thorough else [])):
+        a = R.gen_art(rng, 1, 2, 1, layer_counts=(0, 1))
+        a.anims[0] = R.gen_anim(rng, n, (0, 1, 2))
+        yield from read_rt(a, f"frame-table-{n}")
+
 def search(drv, model, diverged, lean, rng):
     """after a broken tie: more reference-encoded files and every field x boundary value, direct oracles only"""
-    cs = []
+    cs = list(table_size_cases(rng, True))
     for _ in range(60):
         a = R.gen_art(rng, layer_counts=(0, 1, 2, 3, 127))
         cs += list(valid_cases(a, "search", rng)) + list(refusal_cases(a, "search", rng))
